@@ -251,6 +251,11 @@ func (r *relay) processFrame(f http2.Frame) error {
 		} else {
 			var settings []http2.Setting
 			if err = f.ForeachSetting(func(s http2.Setting) error {
+				// An invalid value is a connection error (RFC 7540 section 6.5.2). Acting on it is
+				// not an option either: a maximum frame size of 0 would make data() split forever.
+				if err := s.Valid(); err != nil {
+					return fmt.Errorf("invalid setting %v: %w", s, err)
+				}
 				switch s.ID {
 				case http2.SettingHeaderTableSize:
 					r.peer.updateTableSize(s.Val)
